@@ -21,7 +21,7 @@ echo "== demo WITHOUT change" | tee -a "$log"
 ( cd "$W" && timeout 600 go test $RACE -vet=off -count=1 -run "$rx" "./$pkg/" ) >> "$log" 2>&1; r0=$?
 echo "exit $r0" | tee -a "$log"
 echo "== apply patch" | tee -a "$log"
-git -C "$W" apply "$out/patch.diff" >> "$log" 2>&1 || { echo "patch does not apply" | tee -a "$log"; git -C /repo worktree remove --force "$W"; exit 1; }
+git -C "$W" apply "$out/patch.diff" >> "$log" 2>&1 || git -C "$W" apply -3 "$out/patch.diff" >> "$log" 2>&1 || { echo "patch does not apply" | tee -a "$log"; git -C /repo worktree remove --force "$W"; exit 1; }
 ( cd "$W" && go build ./... ) >> "$log" 2>&1; rb=$?
 echo "build exit $rb" | tee -a "$log"
 echo "== demo WITH change" | tee -a "$log"
